@@ -70,6 +70,26 @@ package values
 //@   loop 1 invariant forall(k, rangeindex + 1, len(b), b[k] == old(b[k]))
 //@   ensures fresh(result) && big(result) == ite(n == 0, 0, ite(u >= pow2n(8 * n - 1, 520), u - pow2n(8 * n, 520), u))
 //@   ensures L_pow2_sizes(n)
+// The minimal two's-complement encoding (Int.toBigEndianBytes): for values whose encoding has at most 32 bytes
+// (|x| < 2^247) the result, read back as two's complement - the very expression BigEndianBytesToSignedBigInt's
+// postcondition uses - is the value. Longer encodings are outside this contract (stated precondition).
+//@ func SignedBigIntToBigEndianBytes
+//@   props C17
+//@   option bevalbound=32
+//@   option timeout=120
+//@   requires bigInt != nil && -pow2(247) <= big(bigInt) && big(bigInt) < pow2(247)
+//@   nofail
+//@   let x = big(bigInt)
+//@   letpost n = len(result)
+//@   letpost u = beval(result)
+//@   assumepost L_pow2_bytes(len(result)) && L_pow2_bytes(len(result) - 1)
+// one case per result length (see BigEndianBytesToSignedBigInt)
+//@   casesplitpost len(result) == 1 | len(result) == 2 | len(result) == 3 | len(result) == 4 | len(result) == 5 | len(result) == 6 | len(result) == 7 | len(result) == 8 | len(result) == 9 | len(result) == 10 | len(result) == 11 | len(result) == 12 | len(result) == 13 | len(result) == 14 | len(result) == 15 | len(result) == 16 | len(result) == 17 | len(result) == 18 | len(result) == 19 | len(result) == 20 | len(result) == 21 | len(result) == 22 | len(result) == 23 | len(result) == 24 | len(result) == 25 | len(result) == 26 | len(result) == 27 | len(result) == 28 | len(result) == 29 | len(result) == 30 | len(result) == 31 | len(result) == 32
+//@   ensures[C17] 1 <= n && n <= 32
+//@   ensures[C17] x == ite(u >= pow2n(8 * n - 1, 520), u - pow2n(8 * n, 520), u)
+//@   loop 1 invariant rangeindex >= -1 && rangeindex < len(bytes)
+//@   loop 1 invariant forall(k, 0, rangeindex + 1, bytes[k] == 255 - loopentry(bytes[k]))
+//@   loop 1 invariant forall(k, rangeindex + 1, len(bytes), bytes[k] == loopentry(bytes[k]))
 //@ schema values_int_bitop(M=BitwiseOr, F=tcor)
 //@ schema values_int_bitop(M=BitwiseXor, F=tcxor)
 //@ schema values_int_bitop(M=BitwiseAnd, F=tcand)
